@@ -115,7 +115,7 @@ public:
 
         if (state_ == State::CLOSING && queue_.empty())
         {
-            state_ == State::CLOSED;
+            state_ = State::CLOSED;
         }
         
         M17CXX_VERIF_QEVENT(4, val);
@@ -164,7 +164,7 @@ public:
 
         if (state_ == State::CLOSING && queue_.empty())
         {
-            state_ == State::CLOSED;
+            state_ = State::CLOSED;
         }
         
         M17CXX_VERIF_QEVENT(4, val);
